@@ -774,8 +774,16 @@ class Arr:
             return self.dtype
         if dt == self.dtype:
             return self
-        r = self._mk(self.a.copy(), [self], lambda g: [g], dtype=dt)
+        dt = _dtype_name(dt)
+        a = self.a.copy()
+        if dt in INT_DTYPES and dt != "bool" and self.dtype not in INT_DTYPES and a.size:
+            # float -> integer conversion truncates toward zero (symbolic reals included)
+            a = _uf(lambda v: core.s_int(v) if isinstance(v, (float, Fraction, core.SReal)) and not isinstance(v, core.SLog) else v, 1)(a)
+        r = self._mk(a, [self], lambda g: [g], dtype=dt)
         return r
+
+    def is_floating_point(self):
+        return str(self.dtype) in ("float16", "float32", "float64", "bfloat16")
 
     def float(self):
         return self.type("float32")
@@ -796,7 +804,7 @@ class Arr:
         dt = _dtype_name(dt)
         if dt in INT_DTYPES and dt != "bool":
             # float -> int truncation only for concrete floats
-            f = _uf(lambda v: (int(v) if isinstance(v, (float, Fraction)) else (v._n() if isinstance(v, SBool) else (int(v) if isinstance(v, (bool, np.bool_)) else v))), 1)
+            f = _uf(lambda v: (core.s_int(v) if isinstance(v, (float, Fraction)) or (isinstance(v, core.SReal) and not isinstance(v, core.SLog)) else (v._n() if isinstance(v, SBool) else (int(v) if isinstance(v, (bool, np.bool_)) else v))), 1)
             return type(self)(f(self.a) if self.a.size else self.a.copy(), dtype=dt)
         return type(self)(self.a.copy(), dtype=dt)
 
